@@ -906,6 +906,17 @@ func (e *Env) call(n *CNode) Val {
 		n2 := *e
 		n2.state = e.loopPre
 		return n2.expr(n.Args[0])
+	case "reached":
+		// reached(F): this path has made the (first) call of callee F
+		root := e.fc
+		for root.parent != nil {
+			root = root.parent
+		}
+		rc, ok := root.afterCallReach[n.Args[0].Name]
+		if !ok {
+			cxFail("reached(%s): no call of %s before this point", n.Args[0].Name, n.Args[0].Name)
+		}
+		return Val{t: rc, ty: tBool}
 	case "after":
 		// after(F, e): e in the state in which the first call of F (short name of a callee of the function under
 		// verification, outside loops) returned.  Only meaningful where that call has happened on every path: the
